@@ -111,13 +111,17 @@ Proof. intros. unfold len. rewrite map_length. reflexivity. Qed.
 (* ------------------------------------------------------------------------------------------ *)
 Record wf (i : rinfo) : Prop := mkWf {
   wf_nodes_nodup : NoDup (raft_nodes i);                                   (* replicas on distinct nodes *)
-  wf_ids_nodup   : NoDup (keys (raft_ids i));
-  wf_ids_keys    : forall n, In n (keys (raft_ids i)) <-> In n (raft_nodes i);
-  wf_ids_inj     : NoDup (map snd (raft_ids i));                           (* RaftIDs injective *)
+  wf_ids_nodup   : NoDup (keys (raft_ids i));                              (* RaftIDs is a map *)
+  wf_ids_inj     : NoDup (map snd (raft_ids i));                           (* RaftIDs injective (voters and learners) *)
   wf_ids_max     : forall n id, In (n, id) (raft_ids i) -> id <= max_id i; (* every id <= MaxRaftID *)
-  wf_rm_nodup    : NoDup (keys (removings i));
-  wf_rm_sub      : forall n, In n (keys (removings i)) -> In n (raft_nodes i)
+  wf_rm_nodup    : NoDup (keys (removings i))                              (* Removings is a map *)
 }.
+
+(* consistency of the keys, which holds as long as a node is never both a data node and a learner
+   (see keys_ok_* below): every member has an id, a removing entry belongs to a member *)
+Definition keys_ok (i : rinfo) : Prop :=
+  (forall n, In n (raft_nodes i) -> In n (keys (raft_ids i))) /\
+  (forall n, In n (keys (removings i)) -> In n (raft_nodes i)).
 
 (* Inv: well-formed, at most one replica marked for removal, the remaining replicas a strict
    majority of the replication factor *)
@@ -128,7 +132,7 @@ Lemma is_quorum_spec : forall replica i, is_quorum replica i = true <-> replica 
 Proof. intros. unfold is_quorum. rewrite N.ltb_lt. reflexivity. Qed.
 
 Lemma wf_set_epoch : forall i e, wf i -> wf (set_epoch i e).
-Proof. intros i e [H1 H2 H3 H4 H5 H6 H7]. constructor; simpl; assumption. Qed.
+Proof. intros i e [H1 H2 H3 H4 H5]. constructor; simpl; assumption. Qed.
 Lemma isr_set_epoch : forall i e, isr (set_epoch i e) = isr i.
 Proof. reflexivity. Qed.
 Lemma Inv_set_epoch : forall replica i e, Inv replica i -> Inv replica (set_epoch i e).
@@ -138,35 +142,39 @@ Lemma In_isr : forall i n, In n (isr i) <-> In n (raft_nodes i) /\ ~ In n (keys 
 Proof. intros. unfold isr. rewrite filter_In, negb_true_iff, ahas_false. reflexivity. Qed.
 
 (* --- mark_removing --- *)
-Lemma wf_mark : forall i n now, wf i -> In n (raft_nodes i) -> wf (mark_removing i n now).
+Lemma NoDup_keys_aset : forall A k (v : A) m, NoDup (keys m) -> NoDup (keys (aset k v m)).
 Proof.
-  intros i n now [H1 H2 H3 H4 H5 H6 H7] Hn. constructor; simpl; try assumption.
-  - unfold aset. rewrite keys_app, keys_aremove. simpl. apply NoDup_snoc.
-    + apply NoDup_filter. exact H6.
-    + rewrite filter_In, negb_true_iff, N.eqb_neq. tauto.
-  - intros x. unfold aset. rewrite keys_app, keys_aremove, in_app_iff, filter_In. simpl.
-    intros [[Hx _]|[Hx|[]]]; [auto|subst; exact Hn].
+  intros A k v m H. unfold aset. rewrite keys_app, keys_aremove. simpl. apply NoDup_snoc.
+  - apply NoDup_filter. exact H.
+  - rewrite filter_In, negb_true_iff, N.eqb_neq. tauto.
+Qed.
+Lemma wf_mark : forall i n now, wf i -> wf (mark_removing i n now).
+Proof.
+  intros i n now [H1 H2 H3 H4 H5]. constructor; simpl; try assumption.
+  apply NoDup_keys_aset. exact H5.
 Qed.
 Lemma removings_mark_empty : forall i n now, removings i = [] -> removings (mark_removing i n now) = [(n, (now, raft_id_of i n))].
 Proof. intros i n now H. simpl. rewrite H. reflexivity. Qed.
 
 (* --- add_node --- *)
+(* RaftIDs[n] = MaxRaftID+1 keeps the id map injective and bounded by the new MaxRaftID *)
+Lemma ids_aset_fresh : forall ids mx n,
+  NoDup (keys ids) -> NoDup (map snd ids) -> (forall x id, In (x, id) ids -> id <= mx) ->
+  NoDup (keys (aset n (mx + 1) ids)) /\ NoDup (map snd (aset n (mx + 1) ids)) /\
+  (forall x id, In (x, id) (aset n (mx + 1) ids) -> id <= mx + 1).
+Proof.
+  intros ids mx n H1 H2 H3. split; [apply NoDup_keys_aset; exact H1|]. split.
+  - unfold aset. rewrite map_app. simpl. apply NoDup_snoc; [unfold aremove; apply NoDup_map_filter; exact H2|].
+    intros Hi. apply in_map_iff in Hi. destruct Hi as [[x id] [He Hi]]. simpl in He. subst.
+    apply In_aremove in Hi. destruct Hi as [Hi _]. apply H3 in Hi. lia.
+  - intros x id. unfold aset. rewrite in_app_iff. simpl.
+    intros [Hi|[Hi|[]]]; [apply In_aremove in Hi; destruct Hi as [Hi _]; apply H3 in Hi; lia|inversion Hi; lia].
+Qed.
 Lemma wf_add : forall i n, wf i -> ~ In n (raft_nodes i) -> wf (add_node i n).
 Proof.
-  intros i n [H1 H2 H3 H4 H5 H6 H7] Hn.
-  assert (Hk : ~ In n (keys (raft_ids i))) by (rewrite H3; exact Hn).
-  constructor; simpl.
-  - apply NoDup_snoc; assumption.
-  - unfold aset. rewrite aremove_notin by exact Hk. rewrite keys_app. simpl. apply NoDup_snoc; assumption.
-  - intros x. unfold aset. rewrite aremove_notin by exact Hk. rewrite keys_app. simpl.
-    rewrite !in_app_iff, H3. reflexivity.
-  - unfold aset. rewrite aremove_notin by exact Hk. rewrite map_app. simpl. apply NoDup_snoc; [assumption|].
-    intros Hi. apply in_map_iff in Hi. destruct Hi as [[x id] [He Hi]]. simpl in He. subst.
-    apply H5 in Hi. lia.
-  - intros x id. unfold aset. rewrite aremove_notin by exact Hk. rewrite in_app_iff. simpl.
-    intros [Hi|[Hi|[]]]; [apply H5 in Hi; lia|inversion Hi; lia].
-  - assumption.
-  - intros x Hx. rewrite in_app_iff. left. apply H7. exact Hx.
+  intros i n [H1 H2 H3 H4 H5] Hn.
+  destruct (ids_aset_fresh (raft_ids i) (max_id i) n H2 H3 H4) as [A [B C]].
+  constructor; simpl; try assumption. apply NoDup_snoc; assumption.
 Qed.
 Lemma isr_add : forall i n, ~ In n (keys (removings i)) -> isr (add_node i n) = isr i ++ [n].
 Proof.
@@ -177,14 +185,12 @@ Qed.
 (* --- drop_node --- *)
 Lemma wf_drop : forall i n, wf i -> wf (drop_node i n).
 Proof.
-  intros i n [H1 H2 H3 H4 H5 H6 H7]. constructor; simpl.
+  intros i n [H1 H2 H3 H4 H5]. constructor; simpl.
   - apply NoDup_filter. exact H1.
   - rewrite keys_aremove. apply NoDup_filter. exact H2.
-  - intros x. rewrite keys_aremove, !filter_In, H3. reflexivity.
-  - unfold aremove. apply NoDup_map_filter. exact H4.
-  - intros x id Hi. apply In_aremove in Hi. apply (H5 x id). tauto.
-  - rewrite keys_aremove. apply NoDup_filter. exact H6.
-  - intros x. rewrite keys_aremove, !filter_In. intros [Hx Hne]. split; [apply H7; exact Hx|exact Hne].
+  - unfold aremove. apply NoDup_map_filter. exact H3.
+  - intros x id Hi. apply In_aremove in Hi. apply (H4 x id). tauto.
+  - rewrite keys_aremove. apply NoDup_filter. exact H5.
 Qed.
 Lemma isr_drop : forall i n, In n (keys (removings i)) -> isr (drop_node i n) = isr i.
 Proof.
@@ -331,16 +337,16 @@ Qed.
 (* specification shared by all decision procedures: called with the caller's copy equal to the stored
    value, they keep the invariant of the stored value, return the stored value, and every attempt is a
    permitted change of the value stored at that moment and satisfies the procedure-specific clause P *)
-Definition pspec (replica : N) (P : attempt -> Prop) (r : reg) (o : outcome) : Prop :=
+Definition pspec {C : Type} (replica : N) (P : attempt -> Prop) (r : reg) (o : C * reg * rinfo * list attempt) : Prop :=
   let '(_, r', info', atts) := o in
   Inv replica (r_info r') /\ info' = r_info r' /\
   Forall (fun a => att_ok replica a /\ P a) atts /\ chain (r_info r) atts (r_info r').
 
-Lemma pspec_noop : forall replica P r c, Inv replica (r_info r) -> pspec replica P r (c, r, r_info r, []).
+Lemma pspec_noop : forall {C : Type} replica P r (c : C), Inv replica (r_info r) -> pspec replica P r (c, r, r_info r, []).
 Proof. intros. simpl. split; [assumption|]. split; [reflexivity|]. split; constructor. Qed.
 
 (* the common tail of every procedure: one update attempt with a checked value *)
-Lemma pspec_update : forall replica (P : attempt -> Prop) r v c1 c2,
+Lemma pspec_update : forall {C : Type} replica (P : attempt -> Prop) r v (c1 c2 : C),
   Inv replica (r_info r) -> Inv replica v -> trans (r_info r) v ->
   (forall a, a_before a = r_info r -> a_value a = v -> P a) ->
   pspec replica P r
@@ -349,7 +355,7 @@ Lemma pspec_update : forall replica (P : attempt -> Prop) r v c1 c2,
      | (r', None, a) => (c2, r', r_info r, [a])
      end).
 Proof.
-  intros replica P r v c1 c2 Hi Hv Ht HP.
+  intros C replica P r v c1 c2 Hi Hv Ht HP.
   destruct (reg_update r v (epoch v)) as [[r' o] a] eqn:E.
   apply reg_update_spec in E. destruct E as [Hb [Hval [[Ho [Hr Hk]]|[e [Ho [Hr Hk]]]]]]; subst o; simpl.
   - rewrite Hr. split; [exact Hi|]. split; [reflexivity|]. split.
@@ -423,7 +429,7 @@ Proof.
   apply pspec_update.
   - exact Hi.
   - split; [|split].
-    + apply wf_mark; [exact Hw|]. apply (wf_ids_keys _ Hw). apply ahas_In. exact E2.
+    + apply wf_mark. exact Hw.
     + apply N.ltb_ge in E6. exact E6.
     + apply is_quorum_spec. exact E5.
   - apply trans_mark.
@@ -610,9 +616,9 @@ Lemma sspec_nil : forall replica P r, Inv replica (r_info r) -> sspec replica P 
 Proof. intros. split; [assumption|]. split; constructor. Qed.
 Lemma sspec_same_info : forall replica P r r', r_info r' = r_info r -> Inv replica (r_info r) -> sspec replica P r r' [].
 Proof. intros replica P r r' H Hi. split; [rewrite H; assumption|]. split; [constructor|rewrite H; constructor]. Qed.
-Lemma pspec_sspec : forall replica P r c r' info' atts,
+Lemma pspec_sspec : forall {C : Type} replica P r (c : C) r' info' atts,
   pspec replica P r (c, r', info', atts) -> sspec replica P r r' atts /\ info' = r_info r'.
-Proof. intros replica P r c r' info' atts [H1 [H2 [H3 H4]]]. split; [split; [|split]; assumption|assumption]. Qed.
+Proof. intros C replica P r c r' info' atts [H1 [H2 [H3 H4]]]. split; [split; [|split]; assumption|assumption]. Qed.
 Lemma sspec_app : forall replica P r r1 r2 w1 w2,
   sspec replica P r r1 w1 -> sspec replica P r1 r2 w2 -> sspec replica P r r2 (w1 ++ w2).
 Proof.
@@ -805,14 +811,12 @@ Proof.
   - eapply perm_trans; eassumption.
 Qed.
 
-Definition with_nodes (i : rinfo) (l : list N) : rinfo := mkInfo l (raft_ids i) (removings i) (max_id i) (epoch i).
+Definition with_nodes (i : rinfo) (l : list N) : rinfo := mkInfo l (raft_ids i) (removings i) (max_id i) (learners i) (epoch i).
 
 Lemma Inv_perm : forall replica i l, Inv replica i -> Permutation l (raft_nodes i) -> Inv replica (with_nodes i l).
 Proof.
-  intros replica i l [[H1 H2 H3 H4 H5 H6 H7] [Hl Hq]] Hp. split; [constructor; simpl; try assumption|split].
+  intros replica i l [[H1 H2 H3 H4 H5] [Hl Hq]] Hp. split; [constructor; simpl; try assumption|split].
   - eapply Permutation_NoDup; [apply Permutation_sym; exact Hp|exact H1].
-  - intros n. rewrite H3. split; intros H; [eapply Permutation_in; [apply Permutation_sym; exact Hp|exact H]|eapply Permutation_in; [exact Hp|exact H]].
-  - intros n Hn. eapply Permutation_in; [apply Permutation_sym; exact Hp|]. apply H7. exact Hn.
   - exact Hl.
   - assert (Hpi : Permutation (isr (with_nodes i l)) (isr i)).
     { unfold isr. simpl. apply Permutation_filter'. exact Hp. }
@@ -836,7 +840,7 @@ Proof.
   intros replica P leader orig. induction orig as [|x rest IH]; intros idx ns r moved atts0 HP Hns Hi; simpl.
   - exists []. rewrite app_nil_r. split; [reflexivity|apply sspec_nil; exact Hi].
   - destruct (x =? leader); [|apply IH; assumption].
-    set (ns1 := mkInfo (swap_to_front (raft_nodes ns) idx) (raft_ids ns) (removings ns) (max_id ns) (epoch ns)).
+    set (ns1 := mkInfo (swap_to_front (raft_nodes ns) idx) (raft_ids ns) (removings ns) (max_id ns) (learners ns) (epoch ns)).
     assert (Hperm : Permutation (raft_nodes ns1) (raft_nodes (r_info r))).
     { subst ns. simpl. apply swap_to_front_perm. }
     assert (Hv : Inv replica ns1) by (subst ns; apply (Inv_perm replica (r_info r) _ Hi Hperm)).
@@ -1030,6 +1034,165 @@ Proof.
 Qed.
 
 (* ------------------------------------------------------------------------------------------ *)
+(* the learner placement driver                                                                *)
+(* ------------------------------------------------------------------------------------------ *)
+Lemma Inv_ids_only : forall replica i ids mx l,
+  Inv replica i -> NoDup (keys ids) -> NoDup (map snd ids) -> (forall n id, In (n, id) ids -> id <= mx) ->
+  Inv replica (with_learners i ids mx l).
+Proof.
+  intros replica i ids mx l [[H1 H2 H3 H4 H5] [Hl Hq]] A B C. split; [constructor; simpl; assumption|].
+  split; [exact Hl|exact Hq].
+Qed.
+Lemma trans_ids_only : forall i ids mx l,
+  max_id i <= mx ->
+  (forall n id, In (n, id) ids -> In (n, id) (raft_ids i) \/ max_id i < id) ->
+  trans i (with_learners i ids mx l).
+Proof.
+  intros i ids mx l Hm Hids. constructor; simpl; [exact Hm|exact Hids| | |].
+  - intros x y Hx Hnx. contradiction.
+  - intros x Hx Hnx. contradiction.
+  - left. simpl. tauto.
+Qed.
+(* no learner operation touches the voter set or the removal marks *)
+Definition quiet (a : attempt) : Prop := ~ new_node a /\ ~ new_mark a.
+Lemma quiet_with_learners : forall a i ids mx l,
+  a_before a = i -> a_value a = with_learners i ids mx l -> quiet a.
+Proof.
+  intros a i ids mx l Hb Hv. split.
+  - apply no_new_node_same. rewrite Hb, Hv. reflexivity.
+  - apply no_new_mark_same. rewrite Hb, Hv. reflexivity.
+Qed.
+
+Lemma learner_add_spec : forall replica r nid,
+  Inv replica (r_info r) -> pspec replica quiet r (learner_add r (r_info r) nid).
+Proof.
+  intros replica r nid Hi. unfold learner_add.
+  destruct (mem nid (learners (r_info r))); [apply pspec_noop; exact Hi|].
+  assert (Hw : wf (r_info r)) by (destruct Hi as [Hw _]; exact Hw).
+  destruct (ids_aset_fresh (raft_ids (r_info r)) (max_id (r_info r)) nid
+              (wf_ids_nodup _ Hw) (wf_ids_inj _ Hw) (wf_ids_max _ Hw)) as [A [B C]].
+  apply pspec_update.
+  - exact Hi.
+  - apply Inv_ids_only; assumption.
+  - apply trans_ids_only; [lia|]. intros n id Hin. unfold aset in Hin. rewrite in_app_iff in Hin.
+    destruct Hin as [Hin|[Hin|[]]]; [left; apply In_aremove in Hin; tauto|inversion Hin; right; lia].
+  - intros a Hb Hv. eapply quiet_with_learners; eassumption.
+Qed.
+
+Lemma learner_leader_spec : forall replica r nid,
+  Inv replica (r_info r) -> pspec replica quiet r (learner_leader r (r_info r) nid).
+Proof.
+  intros replica r nid Hi. unfold learner_leader.
+  destruct (index_of nid (learners (r_info r))) as [idx|]; [|apply pspec_noop; exact Hi].
+  assert (Hw : wf (r_info r)) by (destruct Hi as [Hw _]; exact Hw).
+  apply pspec_update.
+  - exact Hi.
+  - apply Inv_ids_only; [exact Hi|apply (wf_ids_nodup _ Hw)|apply (wf_ids_inj _ Hw)|apply (wf_ids_max _ Hw)].
+  - apply trans_ids_only; [lia|auto].
+  - intros a Hb Hv. eapply quiet_with_learners; eassumption.
+Qed.
+
+Lemma ids_aremove_ok : forall (ids : list (N * N)) mx n,
+  NoDup (keys ids) /\ NoDup (map snd ids) /\ (forall x id, In (x, id) ids -> id <= mx) ->
+  NoDup (keys (aremove n ids)) /\ NoDup (map snd (aremove n ids)) /\ (forall x id, In (x, id) (aremove n ids) -> id <= mx).
+Proof.
+  intros ids mx n [A [B C]]. split; [rewrite keys_aremove; apply NoDup_filter; exact A|]. split.
+  - unfold aremove. apply NoDup_map_filter. exact B.
+  - intros x id Hin. apply In_aremove in Hin. apply (C x id). tauto.
+Qed.
+Lemma ids_fold_aremove_ok : forall l (ids : list (N * N)) mx,
+  NoDup (keys ids) /\ NoDup (map snd ids) /\ (forall x id, In (x, id) ids -> id <= mx) ->
+  let ids' := fold_left (fun m n => aremove n m) l ids in
+  (NoDup (keys ids') /\ NoDup (map snd ids') /\ (forall x id, In (x, id) ids' -> id <= mx)) /\
+  (forall e, In e ids' -> In e ids).
+Proof.
+  induction l as [|n l IH]; intros ids mx H; simpl; [split; [exact H|auto]|].
+  destruct (IH (aremove n ids) mx (ids_aremove_ok ids mx n H)) as [A B]. split; [exact A|].
+  intros e He. apply B in He. apply In_aremove in He. tauto.
+Qed.
+
+Lemma learner_remove_spec : forall replica lnodes r nid chk,
+  Inv replica (r_info r) -> pspec replica quiet r (learner_remove lnodes r (r_info r) nid chk).
+Proof.
+  intros replica lnodes r nid chk Hi. unfold learner_remove.
+  destruct (chk && ahas nid lnodes); [apply pspec_noop; exact Hi|].
+  destruct (len (filter (fun x : N => negb (x =? nid)) (learners (r_info r))) =? len (learners (r_info r)));
+    [apply pspec_noop; exact Hi|].
+  assert (Hw : wf (r_info r)) by (destruct Hi as [Hw _]; exact Hw).
+  destruct (ids_aremove_ok (raft_ids (r_info r)) (max_id (r_info r)) nid
+              (conj (wf_ids_nodup _ Hw) (conj (wf_ids_inj _ Hw) (wf_ids_max _ Hw)))) as [A [B C]].
+  apply pspec_update.
+  - exact Hi.
+  - apply Inv_ids_only; assumption.
+  - apply trans_ids_only; [lia|]. intros n id Hin. left. apply In_aremove in Hin. tauto.
+  - intros a Hb Hv. eapply quiet_with_learners; eassumption.
+Qed.
+
+Lemma learner_remove_all_spec : forall replica r,
+  Inv replica (r_info r) -> pspec replica quiet r (learner_remove_all r (r_info r)).
+Proof.
+  intros replica r Hi. unfold learner_remove_all.
+  destruct (learners (r_info r)) as [|x rest] eqn:El; [apply pspec_noop; exact Hi|].
+  assert (Hw : wf (r_info r)) by (destruct Hi as [Hw _]; exact Hw).
+  destruct (ids_fold_aremove_ok (x :: rest) (raft_ids (r_info r)) (max_id (r_info r))
+              (conj (wf_ids_nodup _ Hw) (conj (wf_ids_inj _ Hw) (wf_ids_max _ Hw)))) as [[A [B C]] D].
+  apply pspec_update.
+  - exact Hi.
+  - apply Inv_ids_only; assumption.
+  - apply trans_ids_only; [lia|]. intros n id Hin. left. apply D. exact Hin.
+  - intros a Hb Hv. eapply quiet_with_learners; eassumption.
+Qed.
+
+Lemma learner_fold_spec : forall replica lids mine r0 r w,
+  sspec replica quiet r0 r w ->
+  let '(r2, _, w2) :=
+    fold_left (fun (acc : reg * rinfo * list attempt) n =>
+                 let '(r, i, w) := acc in
+                 if mem n lids then acc
+                 else let '(_, r', i', w') := learner_add r i n in (r', i', w ++ w'))
+              mine (r, r_info r, w) in
+  sspec replica quiet r0 r2 w2.
+Proof.
+  intros replica lids mine. induction mine as [|n mine IH]; intros r0 r w Hs; simpl; [exact Hs|].
+  destruct (mem n lids); [apply IH; exact Hs|].
+  assert (Hi : Inv replica (r_info r)) by (destruct Hs as [Hi _]; exact Hi).
+  assert (Ha := learner_add_spec replica r n Hi).
+  destruct (learner_add r (r_info r) n) as [[[c r'] i'] w'].
+  apply pspec_sspec in Ha. destruct Ha as [Ha Hi']. subst i'.
+  apply IH. eapply sspec_app; eassumption.
+Qed.
+
+Lemma learner_check_spec : forall s,
+  Inv (s_replica s) (r_info (s_reg s)) ->
+  let '(r, w) := learner_check s in sspec (s_replica s) quiet (s_reg s) r w.
+Proof.
+  intros s Hi. unfold learner_check.
+  destruct (s_lstart s) as [[|]|]; [| |apply sspec_nil; exact Hi].
+  - destruct (len (isr (r_info (s_reg s))) <=? s_replica s / 2); [apply sspec_nil; exact Hi|].
+    set (X := match find (fun n : N => ahas n (s_lnodes s)) (learners (r_info (s_reg s))) with
+              | Some m => if match learners (r_info (s_reg s)) with [] => true | x :: _ => x =? m end
+                          then (s_reg s, r_info (s_reg s), [])
+                          else let '(_, r, i, w) := learner_leader (s_reg s) (r_info (s_reg s)) m in (r, i, w)
+              | None => (s_reg s, r_info (s_reg s), [])
+              end).
+    assert (HX : let '(r1, i1, w1) := X in sspec (s_replica s) quiet (s_reg s) r1 w1 /\ i1 = r_info r1).
+    { unfold X. destruct (find (fun n : N => ahas n (s_lnodes s)) (learners (r_info (s_reg s)))) as [m|];
+        [|split; [apply sspec_nil; exact Hi|reflexivity]].
+      destruct (match learners (r_info (s_reg s)) with [] => true | x :: _ => x =? m end);
+        [split; [apply sspec_nil; exact Hi|reflexivity]|].
+      assert (Hl := learner_leader_spec (s_replica s) (s_reg s) m Hi).
+      destruct (learner_leader (s_reg s) (r_info (s_reg s)) m) as [[[c r] i] w].
+      apply pspec_sspec in Hl. exact Hl. }
+    clearbody X. destruct X as [[r1 i1] w1]. destruct HX as [H1 Hi1]. subst i1.
+    assert (Hf := learner_fold_spec (s_replica s) (learners (r_info (s_reg s)))
+                    (map fst (filter (fun e : N * bool => snd e) (s_lnodes s))) (s_reg s) r1 w1 H1).
+    destruct (fold_left _ _ (r1, r_info r1, w1)) as [[r2 i2] w2]. exact Hf.
+  - assert (Hl := learner_remove_all_spec (s_replica s) (s_reg s) Hi).
+    destruct (learner_remove_all (s_reg s) (r_info (s_reg s))) as [[[c r] i] w].
+    apply pspec_sspec in Hl. destruct Hl as [Hl _]. exact Hl.
+Qed.
+
+(* ------------------------------------------------------------------------------------------ *)
 (* every event; every event sequence                                                           *)
 (* ------------------------------------------------------------------------------------------ *)
 (* the clause an attempt made by event e in state s satisfies, besides att_ok *)
@@ -1080,6 +1243,26 @@ Proof.
   - (* EProcess *)
     assert (H := process_removing_spec s place Hi).
     destruct (process_removing s place) as [[s' b] w]. exact H.
+  - (* ELCheck *)
+    assert (H := learner_check_spec s Hi). destruct (learner_check s) as [r w]. simpl. split; [reflexivity|].
+    eapply sspec_weaken; [|exact H]. intros ? _. exact I.
+  - simpl. split; [reflexivity|apply sspec_nil; exact Hi].
+  - (* ELAdd *)
+    assert (H := learner_add_spec (s_replica s) (s_reg s) n Hi).
+    destruct (learner_add (s_reg s) (r_info (s_reg s)) n) as [[[c r] i] w].
+    apply pspec_sspec in H. destruct H as [H _]. simpl. split; [reflexivity|]. eapply sspec_weaken; [|exact H]. intros ? _. exact I.
+  - (* ELLeader *)
+    assert (H := learner_leader_spec (s_replica s) (s_reg s) n Hi).
+    destruct (learner_leader (s_reg s) (r_info (s_reg s)) n) as [[[c r] i] w].
+    apply pspec_sspec in H. destruct H as [H _]. simpl. split; [reflexivity|]. eapply sspec_weaken; [|exact H]. intros ? _. exact I.
+  - (* ELRemove *)
+    assert (H := learner_remove_spec (s_replica s) (s_lnodes s) (s_reg s) n check Hi).
+    destruct (learner_remove (s_lnodes s) (s_reg s) (r_info (s_reg s)) n check) as [[[c r] i] w].
+    apply pspec_sspec in H. destruct H as [H _]. simpl. split; [reflexivity|]. eapply sspec_weaken; [|exact H]. intros ? _. exact I.
+  - (* ELRemoveAll *)
+    assert (H := learner_remove_all_spec (s_replica s) (s_reg s) Hi).
+    destruct (learner_remove_all (s_reg s) (r_info (s_reg s))) as [[[c r] i] w].
+    apply pspec_sspec in H. destruct H as [H _]. simpl. split; [reflexivity|]. eapply sspec_weaken; [|exact H]. intros ? _. exact I.
 Qed.
 
 Lemma run_spec_gen : forall evs s acc,
@@ -1153,7 +1336,7 @@ Qed.
 (* namespace creation produces valid layouts (given that the placement proposes distinct nodes) *)
 (* ------------------------------------------------------------------------------------------ *)
 Lemma wf_empty : wf empty_info.
-Proof. constructor; simpl; try constructor; try tauto; intros; contradiction. Qed.
+Proof. constructor; simpl; try constructor; intros; contradiction. Qed.
 
 Lemma fold_add_wf : forall l i,
   wf i -> removings i = [] -> NoDup l -> (forall x, In x l -> ~ In x (raft_nodes i)) ->
